@@ -173,7 +173,7 @@ def c06(tier, replay):
     run.cov["families"] = summ
     run.cov["exhaustive"] = bool(summ.get("exhaustive"))
     # plus the check flags of ordinary game positions
-    t2, _ = R.rules_trace(run, "C06", ["--playouts", 120 if tier == "quick" else 1000, "--plies", 40], "playout")
+    t2, _ = R.rules_trace(run, "C06", ["--playouts", 100 if tier == "quick" else 1000, "--plies", 40, "--family", 260 if tier == "quick" else 5000], "playout")
     R.need(t2, ["gen", "incheck"])
     R.need(totals, ["chk"])
     R.family_direction_a(run, "C06", ("check",), {"castle": 8, "ep": 80, "promo": 12} if tier == "quick" else {"castle": 1, "ep": 4, "promo": 1})
